@@ -9,7 +9,7 @@
    visits, the last being the far end.  [short w]: every chain has at most the
    16 hops from_modules supports; [closed w]: every far end is a gate of a
    module of the world. *)
-From Coq Require Import List Arith.
+From Coq Require Import List Arith NArith.
 From DesVerif Require Import Topo.Model Topo.Graph Topo.FromGates Topo.Spanned Topo.Conn Topo.Filter Topo.Bfs Topo.World.
 Import ListNotations.
 
@@ -111,6 +111,17 @@ Theorem C19_script_worlds : forall counts chains,
   ((forall c, In c chains -> length (pairs (tl c)) <= S MAX_HOPS) -> short (build_world counts chains)).
 Proof. intros counts chains. split; [apply build_world_closed|apply build_world_short]. Qed.
 Print Assumptions C19_script_worlds.
+
+(* Premise of all of the above: a module index stands for a ModuleId, and
+   from_modules / spanned find the owner of a chain end by id.  Ids come from a
+   wrapping 16-bit counter (ModuleId::gen); wherever it stands (p), the n <= 2^16
+   modules of one simulation get pairwise distinct ids.  The runner reports the
+   same fact about the real ids of every script (first output record), and the
+   model's record is computed by [distinctb] on these ids. *)
+Theorem C19_module_ids_distinct : forall p n,
+  (N.of_nat n <= ID_SPACE)%N -> NoDup (gen_ids p n) /\ distinctb (gen_ids p n) = true.
+Proof. intros p n H. split; [apply gen_ids_NoDup; exact H|apply distinctb_true; apply gen_ids_NoDup; exact H]. Qed.
+Print Assumptions C19_module_ids_distinct.
 
 (* Non-vacuity: the triangle s-a, s-b, a-b with the gates of s created in the
    order to-b, to-a (s = module 0, a = 1, b = 2). *)
